@@ -357,26 +357,28 @@ func init() {
 		Level: "exploration",
 		Rule: "(1) every TypedBucket setter/getter pair written in one transaction and read in a later one over boundary pools (strings incl. empty, NUL, 0xff, 32 kB; int32/int64 extremes; floats incl. +-0, +-Inf, NaN payloads, subnormals; " +
 			"times at year 1/9999, ns precision, odd zones; nil vs empty string; string lists with duplicates/empty element); (2) random maps/lists nested to depth 4 (and lists of 255-65537 elements) with nulls, empty containers, int/int32/int64/float32/float64/bool/time through PutMap/GetMap/PutList/GetList; " +
-			"(3) all 2^12 field-checker subsets over 12 fields of all kinds written through TypedBucket setters and through PersistContext wrappers (including nil pointers), the restricted write offering new values and, for half of the subsets, zero values / empty containers / nil containers; (4) compound keys: all lists of length <= 3 over a 7-string alphabet plus random long lists, round trip and pairwise-distinct encodings. " +
+			"(3) all 2^12 field-checker subsets over 12 fields of all kinds written through TypedBucket setters and through PersistContext wrappers (including nil pointers), the restricted write offering new values and, for half of the subsets, zero values / empty containers / nil containers; (3b) the same 12 fields written through a persist context on which one or two override tables (storage field -> API name) were registered with WithFieldOverrides, the caller's checker a plain or a mapped one, the SAME checker object used for four writes with different table sets: exactly the fields whose translated name is selected change, and neither table nor the caller's mapping is modified; (4) compound keys: all lists of length <= 3 over a 7-string alphabet plus random long lists, round trip and pairwise-distinct encodings. " +
 			"non-trivial = distinct (setter, value) / nested value digests / checker subsets / lists",
 		Assumptions: []string{"the reserved list-size key name is not used as a map key", "map keys are non-empty (an empty key is an unusable bolt key: C07)", "NaN compared by bit pattern"},
 		Exhaustive:  func(t core.Tier) bool { return false },
 		Plan: func(tier core.Tier, seed int64) int {
 			if tier == core.Thorough {
-				return 4 + 60000 + 64 + 2000
+				return 4 + 60000 + 64 + 2000 + c13OverrideCases*8
 			}
-			return 4 + 300 + 16 + 20
+			return 4 + 300 + 16 + 20 + c13OverrideCases
 		},
 		Run: runC13,
 	})
 }
 
 func runC13(c *core.Ctx, idx int) {
-	nNested, nCk := 300, 16
+	nNested, nCk, nCodec := 300, 16, 20
 	if c.Tier == core.Thorough {
-		nNested, nCk = 60000, 64
+		nNested, nCk, nCodec = 60000, 64, 2000
 	}
 	switch {
+	case idx >= 4+nNested+nCk+nCodec:
+		c13OverrideCase(c, idx-4-nNested-nCk-nCodec)
 	case idx < 4:
 		c13ScalarCase(c, idx)
 	case idx < 4+nNested:
